@@ -158,7 +158,7 @@ pub fn run(ctx: &Ctx) -> Outcome {
         "generated programs x 64-bit seeds x seeded timer ranges (vector x81 without handler, so the OS's missing-handler routine runs) x real/virtual traps; two independently built simulators must produce identical traces: per step PC, PSR, R0-R7, instruction count, a digest of all 65536 words incl. initialisation masks every 64 steps, final output and final memory digest; \
          Known{v}: every register and every word of x3000-xFDFF equals v, the I/O page is zero, and a word below x3000 may differ from v only if it is identical for another fill value (OS image); non-trivial = Seeded initialisation or a timer interrupt fired; distinct by tape",
     );
-    let cfg = TapeCfg::new(ctx, 120, 15_000, 600);
+    let cfg = TapeCfg::new(ctx, 120, 5_000, 600);
     out.shards = cfg.shards;
     out.absorb(tape_search(ctx, "main", &cfg, check, describe));
     out.essential = vec!["seeded-init".into(), "known-init".into(), "timer-interrupt-fired".into()];
